@@ -8,6 +8,8 @@ import (
 	"runtime/debug"
 	"sort"
 	"strings"
+	"sync"
+	"sync/atomic"
 	"time"
 
 	"golang.org/x/tools/go/ssa"
@@ -38,6 +40,8 @@ type Config struct {
 	Expect           map[string]string // obligation id -> "sat" (known finding expected) - informational
 	NoIfConv         bool
 	InitBudget       int
+	NoInitCache      bool
+	Workers          int
 }
 
 type Obligation struct {
@@ -65,32 +69,41 @@ type ReachRec struct {
 }
 
 type EntryResult struct {
-	Entry        string            `json:"entry"`
-	Package      string            `json:"package"`
-	Mode         string            `json:"mode"`
-	Options      map[string]string `json:"options"`
-	Paths        int               `json:"paths"`
-	PathsDone    int               `json:"paths_completed"`
-	Aborted      map[string]int    `json:"paths_aborted"`
-	AbortSamples map[string]string `json:"abort_samples"`
-	Obligations  []*Obligation     `json:"obligations"`
-	Reach        []*ReachRec       `json:"reach"`
-	ReachMissing []string          `json:"reach_missing"`
-	Violations   []*Violation      `json:"violations"`
-	Inconclusive []string          `json:"inconclusive"`
-	FuncsReal    map[string]int    `json:"functions_executed"`
-	FuncsStubbed map[string]int    `json:"functions_stubbed"`
-	Assumptions  []string          `json:"assumptions"`
-	Queries      map[string]int    `json:"queries"`
+	Entry        string             `json:"entry"`
+	Package      string             `json:"package"`
+	Mode         string             `json:"mode"`
+	Options      map[string]string  `json:"options"`
+	Paths        int                `json:"paths"`
+	PathsDone    int                `json:"paths_completed"`
+	Aborted      map[string]int     `json:"paths_aborted"`
+	AbortSamples map[string]string  `json:"abort_samples"`
+	Obligations  []*Obligation      `json:"obligations"`
+	Reach        []*ReachRec        `json:"reach"`
+	ReachMissing []string           `json:"reach_missing"`
+	Violations   []*Violation       `json:"violations"`
+	Inconclusive []string           `json:"inconclusive"`
+	FuncsReal    map[string]int     `json:"functions_executed"`
+	FuncsStubbed map[string]int     `json:"functions_stubbed"`
+	Assumptions  []string           `json:"assumptions"`
+	Queries      map[string]int     `json:"queries"`
 	SolverTimeS  map[string]float64 `json:"solver_time_s"`
-	SolverErrors []string          `json:"solver_errors"`
-	WallS        float64           `json:"wall_s"`
-	Steps        int               `json:"ssa_instructions_executed"`
-	Status       string            `json:"status"` // ok | violation | inconclusive | vacuous
-	Panics       map[string]int    `json:"panics"`
-	Events       map[string]int    `json:"events"`
-	Bounds       map[string]int    `json:"bounds"`
-	EngineError  string            `json:"engine_error,omitempty"`
+	SolverErrors []string           `json:"solver_errors"`
+	WallS        float64            `json:"wall_s"`
+	Steps        int                `json:"ssa_instructions_executed"`
+	Status       string             `json:"status"` // ok | violation | inconclusive | vacuous
+	Panics       map[string]int     `json:"panics"`
+	Events       map[string]int     `json:"events"`
+	Bounds       map[string]int     `json:"bounds"`
+	EngineError  string             `json:"engine_error,omitempty"`
+	Workers      int                `json:"workers"`
+}
+
+// worker: one explorer thread with its own solver processes. Paths are independent given their
+// decision prefix, so workers share only the work list and the result tables (under Run.mu).
+type worker struct {
+	id   int
+	feas *Solver
+	obs  []*Solver
 }
 
 type Run struct {
@@ -98,8 +111,11 @@ type Run struct {
 	prog         *ssa.Program
 	pkg          *ssa.Package
 	entry        *ssa.Function
-	feas         *Solver
-	obs          []*Solver
+	mu           sync.Mutex
+	cond         *sync.Cond
+	active       int
+	stopped      bool
+	workers      []*worker
 	work         [][]bool
 	res          *EntryResult
 	obMap        map[string]*Obligation
@@ -110,33 +126,45 @@ type Run struct {
 	pathNo       int
 	incSet       map[string]bool
 	violSeen     map[string]int
-	feasQ        int
-	feasUnknown  int
+	feasQ        int64
+	feasUnknown  int64
 	start        time.Time
 	funcIndex    map[string]*ssa.Function
-	ifconv       int
+	ifconv       int64
 	lastLog      time.Time
+	initSnap     map[*ssa.Package]*pkgSnap
 }
 
-func (r *Run) push(p []bool) { r.work = append(r.work, p) }
+func (r *Run) push(p []bool) {
+	r.mu.Lock()
+	r.work = append(r.work, p)
+	r.mu.Unlock()
+	r.cond.Signal()
+}
 
-func (r *Run) feasible(pc []*Term, c *Term) bool {
+func (r *Run) feasible(in *Interp, c *Term) bool {
 	if c == True {
 		return true
 	}
 	if c == False {
 		return false
 	}
-	r.feasQ++
-	res, _ := r.feas.Check(pc, c, nil)
+	atomic.AddInt64(&r.feasQ, 1)
+	res, _ := in.w.feas.Check(in.pc, c, nil)
 	if res == Unknown {
-		r.feasUnknown++
+		atomic.AddInt64(&r.feasUnknown, 1)
 		return true
 	}
 	return res == Sat
 }
 
 func (r *Run) obligation(id string) *Obligation {
+	r.mu.Lock()
+	defer r.mu.Unlock()
+	return r.obligationLocked(id)
+}
+
+func (r *Run) obligationLocked(id string) *Obligation {
 	if o, ok := r.obMap[id]; ok {
 		return o
 	}
@@ -146,7 +174,20 @@ func (r *Run) obligation(id string) *Obligation {
 	return o
 }
 
+// count updates an obligation's counters under the lock.
+func (r *Run) count(id string, f func(o *Obligation)) {
+	r.mu.Lock()
+	f(r.obligationLocked(id))
+	r.mu.Unlock()
+}
+
 func (r *Run) inconclusive(msg string) {
+	r.mu.Lock()
+	r.inconclusiveLocked(msg)
+	r.mu.Unlock()
+}
+
+func (r *Run) inconclusiveLocked(msg string) {
 	if !r.incSet[msg] {
 		r.incSet[msg] = true
 		r.res.Inconclusive = append(r.res.Inconclusive, msg)
@@ -155,15 +196,16 @@ func (r *Run) inconclusive(msg string) {
 
 // checkObligation asks every configured solver; first definite answer wins, contradictions are
 // inconclusive.
-func (r *Run) checkObligation(pc []*Term, neg *Term, vars []*Term) (Result, map[string]*big.Int) {
+func (r *Run) checkObligation(in *Interp, neg *Term, vars []*Term) (Result, map[string]*big.Int) {
+	obs := in.w.obs
 	type ans struct {
 		i     int
 		res   Result
 		model map[string]*big.Int
 	}
-	pcCopy := append([]*Term(nil), pc...)
-	ch := make(chan ans, len(r.obs))
-	for i, s := range r.obs {
+	pcCopy := append([]*Term(nil), in.pc...)
+	ch := make(chan ans, len(obs))
+	for i, s := range obs {
 		go func(i int, s *Solver) {
 			res, m := s.Check(pcCopy, neg, vars)
 			ch <- ans{i, res, m}
@@ -171,15 +213,15 @@ func (r *Run) checkObligation(pc []*Term, neg *Term, vars []*Term) (Result, map[
 	}
 	var first *ans
 	got := 0
-	results := make([]Result, len(r.obs))
+	results := make([]Result, len(obs))
 	for i := range results {
 		results[i] = Unknown
 	}
 	timeout := time.After(r.cfg.ObTimeout + 30*time.Second)
-	for got < len(r.obs) {
+	for got < len(obs) {
 		var grace <-chan time.Time
 		if first != nil {
-			grace = time.After(200 * time.Millisecond)
+			grace = time.After(500 * time.Millisecond)
 		}
 		select {
 		case a := <-ch:
@@ -197,14 +239,13 @@ func (r *Run) checkObligation(pc []*Term, neg *Term, vars []*Term) (Result, map[
 	}
 done:
 	// any solver still running is killed (its goroutine then returns Unknown)
-	if got < len(r.obs) {
-		for i, s := range r.obs {
+	if got < len(obs) {
+		for i, s := range obs {
 			if results[i] == Unknown {
-				_ = i
 				s.interrupt()
 			}
 		}
-		for got < len(r.obs) {
+		for got < len(obs) {
 			a := <-ch
 			got++
 			if a.res != Unknown {
@@ -237,11 +278,13 @@ func modelStrings(m map[string]*big.Int) map[string]string {
 }
 
 func (r *Run) recordViolation(in *Interp, id string, model map[string]*big.Int) {
+	r.mu.Lock()
+	defer r.mu.Unlock()
 	r.violSeen[id]++
 	if r.violSeen[id] > 3 {
 		return
 	}
-	v := &Violation{Obligation: id, Model: modelStrings(model), Path: r.pathNo}
+	v := &Violation{Obligation: id, Model: modelStrings(model), Path: in.pathNo}
 	if len(in.observed) > 0 && model != nil {
 		v.Observed = map[string]string{}
 		memo := map[int]*big.Int{}
@@ -288,18 +331,24 @@ func describeUnder(v Value, m map[string]*big.Int, memo map[int]*big.Int) string
 }
 
 func (r *Run) reach(in *Interp, id string) {
+	r.mu.Lock()
 	rr, ok := r.reachMap[id]
 	if !ok {
 		rr = &ReachRec{ID: id}
 		r.reachMap[id] = rr
 		r.res.Reach = append(r.res.Reach, rr)
-		// witness model
-		res, m := r.obs[0].Check(append([]*Term(nil), in.pc...), nil, in.nondets)
-		if res == Sat {
-			rr.Model = modelStrings(m)
-		}
 	}
 	rr.Paths++
+	r.mu.Unlock()
+	if !ok {
+		// witness model (outside the lock: a solver call)
+		res, m := in.w.obs[0].Check(append([]*Term(nil), in.pc...), nil, in.nondets)
+		if res == Sat {
+			r.mu.Lock()
+			rr.Model = modelStrings(m)
+			r.mu.Unlock()
+		}
+	}
 }
 
 func (r *Run) findFunc(name string, pkg *ssa.Package) *ssa.Function {
@@ -314,21 +363,35 @@ func (r *Run) findFunc(name string, pkg *ssa.Package) *ssa.Function {
 	return r.funcIndex[name]
 }
 
-func (r *Run) newInterp(prefix []bool) *Interp {
+func (r *Run) newInterp(w *worker, prefix []bool, pathNo int) *Interp {
 	return &Interp{
-		run: r, prog: r.prog, prefix: prefix,
+		run: r, w: w, pathNo: pathNo, prog: r.prog, prefix: prefix,
 		globals: map[*ssa.Global]*Object{}, pkgInit: map[*ssa.Package]bool{},
 		nondetCnt: map[string]int{}, ufCalls: map[string][]ufCall{},
 		callLog: map[string]int{}, stubLog: map[string]int{},
-		extra: map[string]interface{}{}, symRefs: map[*Pointer]symRef{},
+		extra: map[string]interface{}{}, symRefs: map[*Pointer]symRef{}, globalOf: map[*Object]*ssa.Global{},
 	}
 }
 
-func (r *Run) runPath(prefix []bool) {
+func (r *Run) runPath(w *worker, prefix []bool) {
+	r.mu.Lock()
 	r.pathNo++
+	pathNo := r.pathNo
 	r.res.Paths++
-	in := r.newInterp(prefix)
+	r.mu.Unlock()
+	in := r.newInterp(w, prefix, pathNo)
 	defer func() {
+		rec := recover()
+		// a panicking path may need a model: ask before taking the lock
+		var panicModel map[string]*big.Int
+		panicSat := false
+		if gp, ok := rec.(*goPanicV); ok && strings.HasPrefix(r.cfg.PanicPolicy, "violation:") {
+			_ = gp
+			res, m := w.obs[0].Check(append([]*Term(nil), in.pc...), nil, in.nondets)
+			panicSat, panicModel = res == Sat, m
+		}
+		r.mu.Lock()
+		defer r.mu.Unlock()
 		r.res.Steps += in.steps
 		for k, v := range in.callLog {
 			r.res.FuncsReal[k] += v
@@ -339,18 +402,16 @@ func (r *Run) runPath(prefix []bool) {
 		for _, e := range in.events {
 			r.res.Events[e]++
 		}
-		if rec := recover(); rec != nil {
+		if rec != nil {
 			switch x := rec.(type) {
 			case *pathAbort:
 				r.res.Aborted[x.kind]++
-				if _, ok := r.res.AbortSamples[x.kind]; !ok || x.kind == "unsupported" {
-					if len(r.res.AbortSamples) < 40 {
-						r.res.AbortSamples[x.kind+": "+x.msg] = fmt.Sprintf("path %d", r.pathNo)
-					}
+				if len(r.res.AbortSamples) < 40 {
+					r.res.AbortSamples[x.kind+": "+x.msg] = fmt.Sprintf("path %d", pathNo)
 				}
 				switch x.kind {
 				case "unsupported", "unwind", "budget":
-					r.inconclusive(x.kind + ": " + x.msg)
+					r.inconclusiveLocked(x.kind + ": " + x.msg)
 				}
 			case *goPanicV:
 				loc := ""
@@ -363,77 +424,126 @@ func (r *Run) runPath(prefix []bool) {
 				switch {
 				case strings.HasPrefix(pol, "violation:"):
 					id := strings.TrimPrefix(pol, "violation:")
-					ob := r.obligation(id)
+					ob := r.obligationLocked(id)
 					ob.Instances++
 					ob.Sat++
-					res, m := r.obs[0].Check(append([]*Term(nil), in.pc...), nil, in.nondets)
-					if res == Sat {
+					if panicSat {
 						r.violSeen[id]++
 						if r.violSeen[id] <= 3 {
-							r.res.Violations = append(r.res.Violations, &Violation{Obligation: id, Model: modelStrings(m), Path: r.pathNo, Note: "un-recovered panic: " + x.msg, Stack: x.stack})
+							r.res.Violations = append(r.res.Violations, &Violation{Obligation: id, Model: modelStrings(panicModel), Path: pathNo, Note: "un-recovered panic: " + x.msg, Stack: x.stack})
 						}
 					} else {
-						r.inconclusive("panic path without model: " + key)
+						r.inconclusiveLocked("panic path without model: " + key)
 					}
 				case pol == "ignore":
 				default:
-					r.inconclusive("un-recovered panic: " + key)
+					r.inconclusiveLocked("un-recovered panic: " + key)
 				}
 			default:
 				r.res.EngineError = fmt.Sprintf("%v\n%s", rec, debug.Stack())
-				r.inconclusive("engine error: " + fmt.Sprint(rec))
+				r.inconclusiveLocked("engine error: " + fmt.Sprint(rec))
 				r.work = nil
+				r.stopped = true
 			}
 			return
 		}
 		r.res.PathsDone++
+		// a completed path discharges one instance of the panic-freedom obligation
+		if strings.HasPrefix(r.cfg.PanicPolicy, "violation:") {
+			ob := r.obligationLocked(strings.TrimPrefix(r.cfg.PanicPolicy, "violation:"))
+			ob.Instances++
+			ob.Unsat++
+		}
 	}()
 	in.callSSA(r.entry, nil, nil, false)
-	// a completed path discharges panic-freedom obligation instance
-	if strings.HasPrefix(r.cfg.PanicPolicy, "violation:") {
-		ob := r.obligation(strings.TrimPrefix(r.cfg.PanicPolicy, "violation:"))
-		ob.Instances++
-		ob.Unsat++
+}
+
+// workerLoop pulls decision prefixes until the work list is empty and nobody is still producing.
+func (r *Run) workerLoop(w *worker) {
+	for {
+		r.mu.Lock()
+		for len(r.work) == 0 && r.active > 0 && !r.stopped {
+			r.cond.Wait()
+		}
+		if r.stopped || (len(r.work) == 0 && r.active == 0) {
+			r.mu.Unlock()
+			r.cond.Broadcast()
+			return
+		}
+		if r.cfg.MaxPaths > 0 && r.res.Paths >= r.cfg.MaxPaths {
+			r.inconclusiveLocked(fmt.Sprintf("path budget %d exhausted with %d prefixes pending", r.cfg.MaxPaths, len(r.work)))
+			r.stopped = true
+			r.mu.Unlock()
+			r.cond.Broadcast()
+			return
+		}
+		if r.cfg.TimeBudget > 0 && time.Since(r.start) > r.cfg.TimeBudget {
+			r.inconclusiveLocked(fmt.Sprintf("time budget %s exhausted with %d prefixes pending", r.cfg.TimeBudget, len(r.work)))
+			r.stopped = true
+			r.mu.Unlock()
+			r.cond.Broadcast()
+			return
+		}
+		p := r.work[len(r.work)-1]
+		r.work = r.work[:len(r.work)-1]
+		r.active++
+		if time.Since(r.lastLog) > 15*time.Second {
+			r.lastLog = time.Now()
+			fmt.Fprintf(os.Stderr, "  .. %s: %d paths (%d done), %d pending, %d active, %d feas queries, %.0fs\n", r.cfg.Entry, r.res.Paths, r.res.PathsDone, len(r.work), r.active, atomic.LoadInt64(&r.feasQ), time.Since(r.start).Seconds())
+		}
+		r.mu.Unlock()
+		r.runPath(w, p)
+		r.mu.Lock()
+		r.active--
+		r.mu.Unlock()
+		r.cond.Broadcast()
 	}
 }
 
 func (r *Run) Execute() *EntryResult {
 	r.start = time.Now()
+	r.lastLog = time.Now()
+	r.cond = sync.NewCond(&r.mu)
 	r.work = [][]bool{nil}
-	for len(r.work) > 0 {
-		if r.cfg.MaxPaths > 0 && r.res.Paths >= r.cfg.MaxPaths {
-			r.inconclusive(fmt.Sprintf("path budget %d exhausted with %d prefixes pending", r.cfg.MaxPaths, len(r.work)))
-			break
-		}
-		if r.cfg.TimeBudget > 0 && time.Since(r.start) > r.cfg.TimeBudget {
-			r.inconclusive(fmt.Sprintf("time budget %s exhausted with %d prefixes pending", r.cfg.TimeBudget, len(r.work)))
-			break
-		}
-		p := r.work[len(r.work)-1]
-		r.work = r.work[:len(r.work)-1]
-		r.runPath(p)
-		if time.Since(r.lastLog) > 15*time.Second {
-			r.lastLog = time.Now()
-			fmt.Fprintf(os.Stderr, "  .. %s: %d paths (%d done), %d pending, depth %d, %d feas queries, %.0fs\n", r.cfg.Entry, r.res.Paths, r.res.PathsDone, len(r.work), len(p), r.feasQ, time.Since(r.start).Seconds())
-		}
+	n := r.cfg.Workers
+	if n < 1 {
+		n = 1
 	}
+	var wg sync.WaitGroup
+	for i := 0; i < n; i++ {
+		w := &worker{id: i, feas: NewSolver("z3new", r.cfg.FeasTimeout)}
+		for _, sn := range r.cfg.Solvers {
+			w.obs = append(w.obs, NewSolver(sn, r.cfg.ObTimeout))
+		}
+		r.workers = append(r.workers, w)
+		wg.Add(1)
+		go func(w *worker) {
+			defer wg.Done()
+			r.workerLoop(w)
+		}(w)
+	}
+	wg.Wait()
 	res := r.res
+	res.Workers = n
 	for _, id := range r.expectReach {
 		if _, ok := r.reachMap[id]; !ok {
 			res.ReachMissing = append(res.ReachMissing, id)
 		}
 	}
 	sort.Strings(res.ReachMissing)
-	res.Queries = map[string]int{"feasibility": r.feasQ, "feasibility_unknown": r.feasUnknown, "branches_if_converted": r.ifconv}
-	res.SolverTimeS = map[string]float64{r.feas.name + "(feas)": r.feas.Time.Seconds()}
-	res.SolverErrors = append(res.SolverErrors, r.feas.Errors...)
-	for _, s := range r.obs {
-		res.Queries["obligation:"+s.name] = s.Queries
-		res.SolverTimeS[s.name] = s.Time.Seconds()
-		res.SolverErrors = append(res.SolverErrors, s.Errors...)
-		s.Close()
+	res.Queries = map[string]int{"feasibility": int(r.feasQ), "feasibility_unknown": int(r.feasUnknown), "branches_if_converted": int(r.ifconv)}
+	res.SolverTimeS = map[string]float64{}
+	for _, w := range r.workers {
+		res.SolverTimeS[w.feas.name+"(feas)"] += w.feas.Time.Seconds()
+		res.SolverErrors = append(res.SolverErrors, w.feas.Errors...)
+		for _, s := range w.obs {
+			res.Queries["obligation:"+s.name] += s.Queries
+			res.SolverTimeS[s.name] += s.Time.Seconds()
+			res.SolverErrors = append(res.SolverErrors, s.Errors...)
+			s.Close()
+		}
+		w.feas.Close()
 	}
-	r.feas.Close()
 	if len(res.SolverErrors) > 0 {
 		r.inconclusive("solver error lines present")
 	}
